@@ -281,6 +281,8 @@ def run(ctx):
                                  model=got, expected=exp))
     except Exception as ex:
         viol.append({"kind": "correspondence could not be evaluated", "error": repr(ex)[:500], "no_failing_input_found": True})
+    import regress
+    evals += regress.run("C10", viol)
     for v in viol:
         v.setdefault("finding_class", None)
     return {"evaluations": evals, "distinct_nontrivial": len(distinct),
